@@ -115,6 +115,15 @@ Section Struct.
     rewrite E. reflexivity.
   Qed.
 
+  (* a NaN produced by a conversion (symmetric comparison undefined): every ordering
+     comparison is false and == is false *)
+  Theorem nan_conv_false op a b :
+    sym_cmp N tbl res keys a b = Ok None ->
+    vm_cmp N tbl res keys op a b = Ok false /\ qeq N tbl res keys a b = false.
+  Proof.
+    intros H. unfold vm_cmp, pcmp, qeq. rewrite H. destruct (_ || _); split; reflexivity.
+  Qed.
+
   Definition is_lt c := match c with Lt => true | _ => false end.
   Definition is_eq c := match c with Eq => true | _ => false end.
   Definition is_gt c := match c with Gt => true | _ => false end.
@@ -186,6 +195,6 @@ Section Struct.
     vm_cmp N tbl res keys (flip op) b a = vm_cmp N tbl res keys op a b.
   Proof.
     intros L. unfold vm_cmp. rewrite (pcmp_swap a b L).
-    destruct (pcmp N tbl res keys a b) as [| |[]|]; destruct op; reflexivity.
+    destruct (pcmp N tbl res keys a b) as [| |[]]; destruct op; reflexivity.
   Qed.
 End Struct.
